@@ -171,54 +171,101 @@ func ruleC17_2(c *Ctx) {
 		c.check(len(missing) == 0, "OnCReact: "+staticCalleeName(a.Common())+" only for servable requests", c.at(a), "behind the unknown / too-large / arity / PING / QUIT tests",
 			"a request can be routed or queued without the test(s) "+strings.Join(missing, ", ")+": a rejected (or locally answered) request reaches a backend", withGuards(gs))
 	}
-	// each rejecting edge returns its reply
-	for _, b := range on.Blocks {
-		ifi, ok := b.Instrs[len(b.Instrs)-1].(*ssa.If)
-		if !ok {
-			continue
+	// a return inside a helper of OnCReact counts when OnCReact hands the helper's reply and action on unchanged
+	// on the edge where the helper reports that it answered (`if reply, act, done := answerLocally(r, c); done { return reply, act }`)
+	passedOn := func(r *ssa.Return) bool {
+		h := r.Parent()
+		if h == on {
+			return true
 		}
-		bo, ok := ifi.Cond.(*ssa.BinOp)
-		if !ok || bo.Op != token.EQL {
-			continue
-		}
-		if base, is := fieldLoad(bo.X, typeF); !is || strip(base) != ssa.Value(on.Params[1]) {
-			continue
-		}
-		v, isK := constInt(bo.Y)
-		if !isK {
-			continue
-		}
-		for _, n := range needs {
-			if n.k != v {
+		for _, s := range p.helperSites(h) {
+			call, ok := s.Instr.(*ssa.Call)
+			if !ok || outermost(s.Fn) != on {
 				continue
 			}
-			tb := b.Succs[0]
-			okR := false
-			if r, ok := tb.Instrs[len(tb.Instrs)-1].(*ssa.Return); ok {
-				okR = strings.Contains(returnLabel(r), n.reply)
-				if n.name == "ReqQuit" {
-					if a, isK := constInt(results(r)[1]); !isK || a != 1 {
-						okR = false // action Close
+			rs := results(r)
+			for _, or := range returnsReachable(on) {
+				ors := results(or.(*ssa.Return))
+				if len(ors) != 2 {
+					continue
+				}
+				e0, ok0 := ors[0].(*ssa.Extract)
+				e1, ok1 := ors[1].(*ssa.Extract)
+				if !ok0 || !ok1 || e0.Tuple != ssa.Value(call) || e1.Tuple != ssa.Value(call) || e0.Index != 0 || e1.Index != 1 {
+					continue
+				}
+				// guarded by a boolean result of the call that is true at this helper return
+				for _, g := range guardsAtRaw(or.Block()) {
+					ex, isEx := g.Cond.(*ssa.Extract)
+					if !isEx || ex.Tuple != ssa.Value(call) || ex.Index >= len(rs) {
+						continue
+					}
+					if cst, isC := rs[ex.Index].(*ssa.Const); isC && cst.Value != nil && constBoolValue(cst) == g.Truth {
+						return true
 					}
 				}
 			}
-			c.check(okR, "OnCReact: "+n.name+" answered locally", c.at(ifi), "returns "+n.reply, "the "+n.name+" case does not return its local reply ("+n.reply+")")
+		}
+		return false
+	}
+	fam := p.family(on)
+	for _, g := range fam {
+		if g != on {
+			bindAgreeing(g, p.helperSites(g))
+		}
+	}
+	// each rejecting edge returns its reply
+	for _, fnx := range fam {
+		for _, b := range fnx.Blocks {
+			ifi, ok := b.Instrs[len(b.Instrs)-1].(*ssa.If)
+			if !ok {
+				continue
+			}
+			bo, ok := ifi.Cond.(*ssa.BinOp)
+			if !ok || bo.Op != token.EQL {
+				continue
+			}
+			if base, is := fieldLoad(bo.X, typeF); !is || strip(base) != ssa.Value(on.Params[1]) {
+				continue
+			}
+			v, isK := constInt(bo.Y)
+			if !isK {
+				continue
+			}
+			for _, n := range needs {
+				if n.k != v {
+					continue
+				}
+				tb := b.Succs[0]
+				okR := false
+				if r, ok := tb.Instrs[len(tb.Instrs)-1].(*ssa.Return); ok {
+					okR = strings.Contains(returnLabel(r), n.reply) && passedOn(r)
+					if n.name == "ReqQuit" {
+						if a, isK := constInt(results(r)[1]); !isK || a != 1 {
+							okR = false // action Close
+						}
+					}
+				}
+				c.check(okR, "OnCReact: "+n.name+" answered locally", c.at(ifi), "returns "+n.reply, "the "+n.name+" case does not return its local reply ("+n.reply+")")
+			}
 		}
 	}
 	// unknown command edge
 	okU := false
-	allInstrs(on, func(in ssa.Instruction) {
-		if r, ok := in.(*ssa.Return); ok && strings.Contains(returnLabel(r), "unknown command") {
-			conds := decidingConds(r.Block(), 0)
-			okAll := len(conds) == 2
-			for _, g := range conds {
-				if !(typeCmp(g, token.LEQ, unknown) || typeCmp(g, token.GEQ, sentinel)) {
-					okAll = false
+	for _, fnx := range fam {
+		allInstrs(fnx, func(in ssa.Instruction) {
+			if r, ok := in.(*ssa.Return); ok && strings.Contains(returnLabel(r), "unknown command") && passedOn(r) {
+				conds := decidingConds(r.Block(), 0)
+				okAll := len(conds) == 2
+				for _, g := range conds {
+					if !(typeCmp(g, token.LEQ, unknown) || typeCmp(g, token.GEQ, sentinel)) {
+						okAll = false
+					}
 				}
+				okU = okAll
 			}
-			okU = okAll
-		}
-	})
+		})
+	}
 	c.check(okU, "OnCReact: unknown commands answered locally", p.pos(on.Pos()), "Type <= UNKNOWN || Type >= Sentinel ⇒ -ERR unknown command", "the unknown-command reply is not returned exactly for types outside (UNKNOWN, Sentinel)")
 }
 
@@ -330,21 +377,75 @@ func ruleC17_4(c *Ctx) {
 	} else {
 		c.bad("conn.sread: oversized fragment reply fails the request", p.pos(sread.Pos()), fmt.Sprintf("expected one sizeTooLarge test on the reply, found %d", len(calls)))
 	}
-	// merged MGET reply re-tested
+	// merged MGET reply re-tested: the length of Msg.RspBody (not of the fragment's own reply), after the assembly loop
 	if mg := c.needMethod(pkgCore, "SRespCodec", "MGet"); mg != nil {
 		maxF := p.Field(pkgCore, "SRespCodec", "MsgMaxLength")
-		okM := false
-		allInstrs(mg, func(in ssa.Instruction) {
-			if bo, ok := in.(*ssa.BinOp); ok && bo.Op == token.GTR {
-				if _, is := fieldLoad(bo.Y, maxF); is && strings.Contains(expr(bo.X), ".RspBody)") {
-					okM = true
+		msgRsp := p.Field(pkgCore, "Msg", "RspBody")
+		okM, why := false, "no comparison of len(msg.RspBody) with the limit found"
+		// the assembly: every store to Msg.RspBody made by MGet or its helpers, lifted into MGet
+		var asm []ssa.Instruction
+		p.allInstrsDeep(mg, func(in ssa.Instruction) {
+			if st, ok := in.(*ssa.Store); ok {
+				if fa, ok := st.Addr.(*ssa.FieldAddr); ok && fieldVar(fa.X.Type(), fa.Field) == msgRsp {
+					if li := lift(in, mg); li != nil {
+						asm = append(asm, li)
+					}
 				}
 			}
-			if call, ok := in.(*ssa.Call); ok && call.Call.StaticCallee() == stl && len(call.Call.Args) == 2 && strings.Contains(expr(call.Call.Args[1]), ".RspBody)") {
-				okM = true
-			}
 		})
-		c.check(okM, "SRespCodec.MGet: merged reply re-tested against the limit", p.pos(mg.Pos()), "len(msg.RspBody) > rc.MsgMaxLength", "the merged MGET reply is not tested against the reply size limit")
+		lenOfMerged := func(v ssa.Value) bool {
+			call, ok := strip(v).(*ssa.Call)
+			if !ok {
+				return false
+			}
+			if b, ok := call.Call.Value.(*ssa.Builtin); !ok || b.Name() != "len" {
+				return false
+			}
+			_, is := fieldLoad(call.Call.Args[0], msgRsp)
+			return is
+		}
+		allInstrs(mg, func(in ssa.Instruction) {
+			var x ssa.Value
+			if bo, ok := in.(*ssa.BinOp); ok && bo.Op == token.GTR {
+				if _, is := fieldLoad(bo.Y, maxF); is {
+					x = bo.X
+				}
+			}
+			if call, ok := in.(*ssa.Call); ok && call.Call.StaticCallee() == stl && len(call.Call.Args) == 2 {
+				x = call.Call.Args[1]
+			}
+			if x == nil {
+				return
+			}
+			if !lenOfMerged(x) {
+				why = "the limit is compared with " + expr(x) + ", not with the length of the merged reply"
+				return
+			}
+			// measured after the assembly: every store to the merged reply either comes before the comparison and cannot
+			// come after it, or is the replacement by the error on the comparison's own true edge
+			after := len(asm) > 0
+			for _, a := range asm {
+				onOwnEdge := false
+				for _, g := range guardsAt(a.Block()) {
+					if g.Cond == ssa.Value(in.(ssa.Value)) && g.Truth {
+						onOwnEdge = true
+					}
+				}
+				if onOwnEdge {
+					continue
+				}
+				if !canReach(a, in) || canReach(in, a) {
+					after = false
+				}
+			}
+			if !after {
+				why = "the merged reply is measured before it was assembled"
+				return
+			}
+			okM = true
+		})
+		c.check(okM, "SRespCodec.MGet: merged reply re-tested against the limit", p.pos(mg.Pos()), "len(msg.RspBody) > rc.MsgMaxLength after the assembly loop",
+			"the merged MGET reply is not tested against the reply size limit ("+why+"): fragments that are each within the limit add up to a reply larger than the configured maximum, which is sent to the client")
 	}
 	// both limits from one option in serve
 	if serve := c.need(pkgCore + ".serve"); serve != nil {
@@ -613,11 +714,35 @@ func ruleC18_3(c *Ctx) {
 	}
 	// conditions of the form ev.Op & K == K that lead to parseAuthIp
 	found := map[int64]bool{}
-	withClosures(watch, func(fn *ssa.Function) {
+	// the watch loop: a closure of watchYml, or a function of the package that watchYml starts (`go a.watchLoop(w)`) or calls
+	var cands []*ssa.Function
+	seenC := map[*ssa.Function]bool{}
+	var addC func(f *ssa.Function, depth int)
+	addC = func(f *ssa.Function, depth int) {
+		withClosures(f, func(g *ssa.Function) {
+			if seenC[g] {
+				return
+			}
+			seenC[g] = true
+			cands = append(cands, g)
+			if depth >= 2 {
+				return
+			}
+			allInstrs(g, func(in ssa.Instruction) {
+				if ci, ok := in.(ssa.CallInstruction); ok {
+					if callee := ci.Common().StaticCallee(); callee != nil && callee != parse && callee.Blocks != nil && calleePkg(callee) == pkgAuthIP {
+						addC(callee, depth+1)
+					}
+				}
+			})
+		})
+	}
+	addC(watch, 0)
+	for _, fn := range cands {
 		c.touch(fn)
-		calls := p.callsIn(fn, parse)
+		calls := directCallsIn(fn, parse)
 		if len(calls) == 0 {
-			return
+			continue
 		}
 		for _, call := range calls {
 			// all If conditions from which the call's block is reachable via their true edge
@@ -703,7 +828,7 @@ func ruleC18_3(c *Ctx) {
 				}
 			}
 		}
-	})
+	}
 	c.examined(len(found))
 	for _, n := range []string{"Write", "Create", "Rename"} {
 		why := map[string]string{
@@ -791,5 +916,16 @@ func trueBits(h *ssa.Function) []int64 {
 			}
 		}
 	}
+	return out
+}
+
+// directCallsIn: the calls of target in fn itself (closures and helpers are visited as functions of their own).
+func directCallsIn(fn, target *ssa.Function) []ssa.CallInstruction {
+	var out []ssa.CallInstruction
+	allInstrs(fn, func(in ssa.Instruction) {
+		if ci, ok := in.(ssa.CallInstruction); ok && ci.Common().StaticCallee() == target {
+			out = append(out, ci)
+		}
+	})
 	return out
 }
